@@ -264,8 +264,8 @@ class Interp:
         self.call_log = []            # (qualname, args) of modular calls, for evidence / debugging
         self.in_target = 0
         self.loop_specs = {}          # (qualname, ordinal) -> LoopSpec
-        self.loop_mode = None         # None (skip loops by their contract) or (qualname, ordinal, elem_case)
-        self.loop_mode_used = False
+        self.loop_mode = None         # None (skip loops by their contract) or [(qualname, ordinal, elem_case), ...] outermost first
+        self.loop_mode_used = 0
 
     # -- function calls ------------------------------------------------------------------------
     def call_function(self, fn, args, kwargs, bound_self=None):
@@ -459,6 +459,9 @@ class Interp:
         cur = self.eval(_load(st.target), frame)
         rhs = self.eval(st.value, frame)
         if isinstance(cur, list) and isinstance(st.op, ast.Add):
+            from .absx import AbsMap, Seg
+            if isinstance(rhs, AbsMap):
+                rhs = [Seg("comprehension", rhs)]
             if not isinstance(rhs, (list, tuple)):
                 if isinstance(rhs, (Sym, TokenM)) or rhs is None or isinstance(rhs, (int, float)):
                     raise PyRaise(TypeError, ("object is not iterable",), frame.qualname)
@@ -501,9 +504,12 @@ class Interp:
         tag = f"loop{key[1]}"
         for name, c in spec.inv(E, frame.locals):
             ctx.require(f"{tag}:init:{name}", c)
-        mode = self.loop_mode
-        if mode is not None and (mode[0], mode[1]) == key and not self.loop_mode_used:
-            self.loop_mode_used = True
+        modes = self.loop_mode or []
+        depth = self.loop_mode_used or 0
+        mode = modes[depth] if depth < len(modes) else None
+        if mode is not None and (mode[0], mode[1]) == key:
+            self.loop_mode_used = depth + 1
+            innermost = (depth + 1 == len(modes))
             case = mode[2]
             frame.locals.update(spec.carried(E, frame.locals, coll))
             for name, c in spec.inv(E, frame.locals):
@@ -520,6 +526,8 @@ class Interp:
                 pass
             except _Break:
                 raise OutOfReach("break inside a loop verified by the arbitrary-iteration rule")
+            if not innermost:
+                raise OutOfReach("nested loop mode: the inner loop was not reached")
             for name, c in spec.inv(E, frame.locals):
                 ctx.require(f"{tag}:preserve:{name}", c)
             for name, c in spec.step(E, pre, frame.locals, elem, case):
